@@ -46,7 +46,7 @@ def gen_plan(rng, tier, config, opts):
             g = rng.choice(GENS[t])
             if t in ('fp2', 'fp12') and fmt == 1:
                 g = 'cyc'           # only norm-one / cyclotomic elements have a packed form
-                if not pc:
+                if not pc and t == 'fp12':
                     fmt, g = 0, 'rand'   # the extension-field constants are those of the pairing tower
             if t == 'fp8':
                 fmt = 0
@@ -228,7 +228,7 @@ def _validate(typ, data, P):
                 return 'coord>=p'
             if data[F] > 1:
                 return 'flag-byte'
-            # x must be the real part of a norm-one element: (x^2 - 1)/qnr is a square
+            # x must be the real part of a norm-one element x + y u, u^2 = qnr: (x^2 - 1)/qnr is a square
             q = P['qnr'] % p
             t = (x * x - 1) * pow(q, p - 2, p) % p
             if t != 0 and pow(t, (p - 1) // 2, p) != 1:
